@@ -74,6 +74,13 @@ type logSink struct {
 	mu    sync.Mutex
 	lines []string
 	drops int
+	tee   func(string) // optional: kept lines are also handed to the case's ordered event trace
+}
+
+func (l *logSink) setTee(f func(string)) {
+	l.mu.Lock()
+	l.tee = f
+	l.mu.Unlock()
 }
 
 func (l *logSink) Write(b []byte) (int, error) {
@@ -89,7 +96,11 @@ func (l *logSink) Write(b []byte) (int, error) {
 		if len(l.lines) < 60 {
 			l.lines = append(l.lines, strings.TrimSpace(s))
 		}
+		tee := l.tee
 		l.mu.Unlock()
+		if tee != nil {
+			tee(strings.TrimSpace(s))
+		}
 	}
 	return len(b), nil
 }
@@ -116,6 +127,8 @@ type rig struct {
 
 	handshakesOK  atomic.Int64
 	handshakesBad atomic.Int64
+
+	onActivated atomic.Pointer[func(readerID string)] // optional: called right after Sender.ActivateReader returned
 }
 
 func newRig(bufSize, cpInterval int) (*rig, error) {
@@ -232,6 +245,9 @@ func (g *rig) handlePeer(conn net.Conn) {
 		return
 	}
 	g.sender.ActivateReader(reader)
+	if f := g.onActivated.Load(); f != nil {
+		(*f)(syncReq.ReaderID)
+	}
 	g.handshakesOK.Add(1)
 }
 
